@@ -73,6 +73,11 @@ META = {
 
 
 def cases(tier, seed):
+    from .. import produced
+    return _cases(tier, seed) + produced.case_list()
+
+
+def _cases(tier, seed):
     out = []
     for uname, (names, u, dt) in universes(tier).items():
         step = 16 if len(u) < 600 else 8
@@ -171,6 +176,9 @@ def run_dispatch(case, R):
 
 
 def run_case(case, R):
+    if case.get("k") == "produced":
+        from .. import produced
+        return produced.run(R, ID, case["i0"], case["i1"])
     k = case["k"]
     if k == "dispatch":
         return run_dispatch(case, R)
